@@ -450,6 +450,9 @@ func c03Constructor(c *Ctx, r *rng.R) {
 		for j := i + 1; j < len(members); j++ {
 			if e := members[i].Equals(members[j]); e.IsKnown() && e.True() {
 				sig := "C03/set-duplicate"
+				if numbersDifferOnlyInHashText(members[i], members[j]) {
+					sig = "C03/number-hash-text" // KF-C03-1: equal by shortest text, hashed through ten significant digits
+				}
 				c.Fail(sig, fmt.Sprintf("set holds two equal members %s and %s", cq.Show(members[i]), cq.Show(members[j])), desc)
 			}
 		}
